@@ -366,3 +366,32 @@ func GoodCopyThroughOwnBuffer(dst func([]byte), src func([]byte) int) {
 		dst(buf[:n])
 	}
 }
+
+type hashingContext struct {
+	state [16]byte
+	n     int
+}
+
+func (h *hashingContext) sum(b []byte) int {
+	for _, x := range b {
+		h.state[h.n%16] ^= x
+		h.n++
+	}
+	return h.n
+}
+
+var sharedHashing = &hashingContext{}
+
+type blockChecker struct {
+	h *hashingContext
+}
+
+// BadCheckersShareOneContext gives every checker the same package-level hashing state.
+func BadCheckersShareOneContext() *blockChecker {
+	return &blockChecker{h: sharedHashing}
+}
+
+// GoodCheckersOwnTheirContext allocates one per checker.
+func GoodCheckersOwnTheirContext() *blockChecker {
+	return &blockChecker{h: &hashingContext{}}
+}
